@@ -182,6 +182,10 @@ class Incremental:
                     r = getattr(r, seg)
                 return r
             if k == "anon":
+                if c.get("id") is not None:  # one AnonymousBundle object connected to several ports
+                    if ("anon", c["id"]) not in shared_nc:
+                        shared_nc[("anon", c["id"])] = h.AnonymousBundle(**{f: mk(v) for f, v in c["fields"]})
+                    return shared_nc[("anon", c["id"])]
                 return h.AnonymousBundle(**{f: mk(v) for f, v in c["fields"]})
             if k == "orphan" and c.get("owner") == "module":
                 # a signal that belongs to (and is in use inside) another module of the design
